@@ -319,6 +319,7 @@ def one_case(ctx, w, case, lines, impls, cases):
                       for i, (k, v, kids, n) in sorted(infos.items()))
     fuel = len(infos) * 4 + 8
     lines.append("trav 0 %d %s" % (fuel, node_s))
+    trav_line = len(lines) - 1
     rec = Recorder(ids)
     mon = root.deep_traverse(rec)
     events = rt.wait(mon.when_done())
@@ -351,7 +352,7 @@ def one_case(ctx, w, case, lines, impls, cases):
     static = {i: {"kind": k, "v": v is not None, "mutable": (k == "f" and n.is_mutable()),
                   "size": (None if k == "u" else n.get_size()), "nkids": len(kids or [])}
               for i, (k, v, kids, n) in infos.items()}
-    w["post"].append((case, static, opstats, checked))
+    w["post"].append((trav_line, case, static, opstats, checked))
     # ---- monitor, from the statement
     V = lambda what, sig, detail=None: ctx.violation(what, case, sig, detail)
     # ---- several traversals started together on one node / on two nodes of the same cap from the same nodemaker, and
@@ -379,6 +380,19 @@ def one_case(ctx, w, case, lines, impls, cases):
                   "concurrent-traversal-incomplete", {"op": opname, "policy": rt.policy,
                                                       "visited": None if got_manifest is None else len(got_manifest),
                                                       "alone": len(manifest)})
+        # recording walkers running at the same time, against the model's interleaved traversals (`multiRun`)
+        recs = [Recorder(ids), Recorder(ids), Recorder(ids)]
+        mons = [root.deep_traverse(recs[0]), root_b.deep_traverse(recs[1]), root.deep_traverse(recs[2])]
+        outs = []
+        for rec_, mon_ in zip(recs, mons):
+            try:
+                outs.append(",".join(rt.wait(mon_.when_done())) + " done")
+            except Exception as e:  # noqa
+                outs.append("failed:" + type(e).__name__)
+        sched = ",".join(str(j) for _ in range(fuel) for j in (0, 1, 1, 2, 0))
+        lines.append("multi 0,0,0 %s %s" % (sched, node_s))
+        impls.append("|".join(outs))
+        cases.append(case)
         alone = sorted(rt.wait(root.list()))
         ds = [root.list(), root.list(), root_b.list(), root.list()]
         for j, d_ in enumerate(ds):
@@ -518,7 +532,8 @@ def run(ctx):
     if model is not None:
         ctx.compare("deep_traverse event sequence (add_node / enter_directory, node, path)", cases, impls, model)
         # statistics, objects-checked and result paths of every operation against the model's event sequence
-        for (case, static, opstats, checked), mout in zip(w["post"], model):
+        for (trav_line, case, static, opstats, checked) in w["post"]:
+            mout = model[trav_line]
             want_stats, want_paths = stats_from_events(mout.split(" ")[0].split(","), static)
             for opname, st in opstats.items():
                 got = {k: (sorted(tuple(x) for x in v) if k == "size-files-histogram" else v) for k, v in st.items() if k in want_stats}
